@@ -35,6 +35,14 @@ def make_sources(root: Path, rng):
     names = ["proj/svgs/emoji_u1f600.svg", "proj/svgs/emoji_u1f601_200d_1f602.svg", "zext/emoji_u1f603.svg", "proj/svgs/emoji_u2764.svg"]
     for n, s in zip(names, svgs):
         files[n] = s
+    # two more sources sharing one outline across glyphs, painted differently in fill AND opacity (several paint attributes move onto
+    # the <use> at once), plus a group that is reused: set/dict iteration order anywhere on that path would show in the bytes
+    shared = "M10,10 L60,12 L70,55 L30,80 Z"
+    files["proj/svgs/emoji_u1f604.svg"] = (f'<svg xmlns="http://www.w3.org/2000/svg" viewBox="0 0 100 100"><path d="{shared}" fill="#ff0000" opacity="0.5"/>'
+                                           '<path d="M5,85 L95,85 L95,95 L5,95 Z" fill="#00aa00"/></svg>')
+    files["zext/emoji_u1f605.svg"] = (f'<svg xmlns="http://www.w3.org/2000/svg" viewBox="0 0 100 100"><path d="{shared}" fill="#0000ff" opacity="0.8"/>'
+                                      f'<path d="{shared}" transform="translate(20 5)" fill="#ffcc00" opacity="0.3"/></svg>')
+    names += ["proj/svgs/emoji_u1f604.svg", "zext/emoji_u1f605.svg"]
     cli.write_svgs(root, files)
     return names
 
@@ -76,14 +84,14 @@ def suite(ctx, res, formats):
     try:
         names = make_sources(root, ctx.rng)
         variants = [
-            {"id": 0},
-            {"id": 1, "perm": 11},
+            {"id": 0, "hashseed": 0},
+            {"id": 1, "perm": 11, "hashseed": 2},
             {"id": 2, "perm": 12, "hashseed": 1},
             {"id": 3, "hashseed": 12345},
-            {"id": 4, "jobs": 1},
-            {"id": 5, "jobs": 16, "perm": 13},
-            {"id": 6, "cwd": ".", "perm": 14},                 # other working directory: relative paths spelled differently
-            {"id": 7, "relative": False, "build_in_cwd": True},  # absolute paths, build dir elsewhere
+            {"id": 4, "jobs": 1, "hashseed": 3},
+            {"id": 5, "jobs": 16, "perm": 13, "hashseed": 4},
+            {"id": 6, "cwd": ".", "perm": 14, "hashseed": 5},   # other working directory: relative paths spelled differently
+            {"id": 7, "relative": False, "build_in_cwd": True},  # absolute paths, build dir elsewhere; hash seed left random
             {"id": 8, "cwd": "zext", "hashseed": 7},
         ]
         jobs = [(str(root), names, fmt, v) for fmt in formats for v in variants]
@@ -111,8 +119,8 @@ def suite(ctx, res, formats):
 
 def run(ctx, res):
     nano.init()
-    res.rule = ("one generated 4-source set (two source directories, a ZWJ sequence) x formats {glyf_colr_1, picosvg, glyf} (+cbdt, glyf_colr_0, untouchedsvg in "
-                "thorough) x 9 variants: argv permutations, PYTHONHASHSEED in {1,7,12345}, ninja -j1/-j16, three working directories with relative "
+    res.rule = ("one generated 4-source set (two source directories, a ZWJ sequence) + 2 fixed sources sharing an outline across glyphs with different fill and opacity x formats {glyf_colr_1, picosvg, glyf} (+cbdt, glyf_colr_0, untouchedsvg in "
+                "thorough) x 9 variants: argv permutations, PYTHONHASHSEED in {0,1,2,3,4,5,7,12345,random}, ninja -j1/-j16, three working directories with relative "
                 "paths, absolute paths, build directory location; non-trivial = every variant other than the baseline")
     formats = ["glyf_colr_1", "picosvg", "glyf"] + (["cbdt", "glyf_colr_0", "untouchedsvg"] if ctx.thorough else [])
     suite(ctx, res, formats)
